@@ -242,7 +242,8 @@ class Concatenator(Group):  # pylint: disable=too-many-public-methods
         ):  # Fast copy to new workspace
             # the copy gets its own records: the two groups are edited independently
             new_entity.concatenated_attributes = deepcopy(self.concatenated_attributes)
-            new_entity.concatenated_object_ids = list(self.concatenated_object_ids)
+            if self.concatenated_object_ids is not None:
+                new_entity.concatenated_object_ids = list(self.concatenated_object_ids)
 
             for field in self.index:
                 values = self.workspace.fetch_concatenated_values(self, field)
